@@ -7,19 +7,29 @@ from vf.driver import Cond
 def _conds(tier):
     conds = []
 
-    def script(s, n, time="int", fixk=None, timeout=240, tmax=None):
+    def script(s, n, time="int", fixk=None, timeout=240, tmax=None, heappre=0, split12=None):
         env = {"VF_SCRIPT": s, "VF_N": n, "VF_TIME": time,
                "VF_TMAX": tmax if tmax is not None else (8 if time != "duration" else 3)}
         name = f"script[{s}]/N={n}/{time}"
         if fixk is not None:
             env["VF_FIXK"] = fixk
             name += f"/k0={fixk}"
+        if heappre:
+            env["VF_HEAPPRE"] = 1
+            name += "/heap-ordered-prestate"
+        if split12 is not None:
+            env["VF_SPLIT12"] = split12
+            name += f"/t1{'<=>'[split12]}t2"
         conds.append(Cond(name, "c01", "h_script", env, timeout))
 
     if tier == "quick":
         # one step from every state built by 4 adds (every heap-ordered array of 4 entries)
         for k in range(4):
             script("R", 4, fixk=k)
+        # one step from every heap-ordered array of 7 entries: the smallest size at which a removal
+        # that repairs the heap in one direction only shows up in the drain (interior index 3)
+        for sp in (0, 1, 2):
+            script("R", 7, fixk=3, heappre=1, split12=sp, timeout=900)
         script("A", 3)
         script("P", 3)
         script("X", 3)
@@ -37,6 +47,11 @@ def _conds(tier):
     else:
         for k in range(5):
             script("R", 5, fixk=k, timeout=1500)
+        for k in range(7):
+            for sp in (0, 1, 2):
+                script("R", 7, fixk=k, heappre=1, split12=sp, timeout=2400)
+                if k in (3, 4):
+                    script("RAP", 7, fixk=k, heappre=1, split12=sp, timeout=3000)
         for k in range(4):
             for s in ("RA", "RP", "RAP", "RPA", "RR", "RC"):
                 script(s, 4, fixk=k, timeout=1500)
@@ -69,7 +84,9 @@ def run(ctx):
               se.SimEvent.__cmp__, se.SimEvent.__lt__, se.SimEvent.__eq__):
         ctx.source_hash(f)
     ctx.bounds = {
-        "initial build": "N adds of events with symbolic (time, priority); N<=4 quick, N<=5 thorough",
+        "initial build": "N adds of events with symbolic (time, priority); N<=4 quick, N<=5 thorough; plus N=7 with the "
+                         "events arriving in heap order and equal priorities (every heap-ordered array of 7 entries as "
+                         "pre-state; quick: removal index 3, thorough: every index)",
         "operation skeleton": "fixed per condition (letters A R P K C X), all data symbolic: times 0..8 "
                               "(int: symbolic ints; float: symbolic halves; Duration: symbolic index into a "
                               "5-value grid with equal SI values in different units), priorities 1..3, "
